@@ -335,3 +335,78 @@ let () =
       let s l = String.concat "" (List.rev_map str_of_bool l) in
       (if acks = "" then "-" else s !rel) ^ "," ^ (if acks = "" then "-" else s !ini)
     | _ -> "?args")
+
+(* ---------- the wire sender at chunk granularity (Model/PauseSend.v) ---------- *)
+
+(* ps_send unit_ms proto bufsize blocks horizon schedule measured acks tol_ms
+     the REAL pipelineSendData under real time: blocks (payload lengths, comma separated) queued at the start, the chunk
+     size changed, acknowledgements taken from the window, pause / resume / stop at scripted slots.
+     schedule = slot:kind[:n],...   kinds B (t.bufferSize := n) T (take one ack) P R S
+     measured = ms:class,...        classes K ("#DATA:=") W<n> (an encoded block written as it is) S<n> (a piece of n bytes cut out of a block)
+     acks     = what the takes returned, in order: the length, -1 (window empty), -2 (closed)
+     both "|"-separated for the runs of the same schedule; "match" when the model explains one run *)
+let () =
+  register "ps_send" (function [u; proto; buf0; blocks; horizon; sched; measured; acks; tol] ->
+      let u = int_of_string u in
+      let sched = parse_sched sched in
+      let hticks = int_of_string horizon * u in
+      let w = nat_of_int (int_of_n Consts.pause_ack_window) in
+      let blocks = List.map (fun x -> n_of_int (int_of_string x)) (split_on ',' blocks) in
+      let sim sl =
+        let cf0 = cfg_of (n_of_int 1) (z_of_int 1) (n_of_int (int_of_string proto)) in
+        let cf = pause_stretch cf0 sl in
+        let st = ref { (bs_init (n_of_int (int_of_string buf0))) with bd_queue = blocks; bd_closed = true } in
+        let out = ref [] in          (* (ms, class) newest first *)
+        let written = ref [] in      (* chunk lengths in order, newest first *)
+        let taken = ref 0 in
+        let acks = ref [] in
+        let step j e =
+          let (s', os) = bstep cf w !st e in
+          let changed = s' <> !st || os <> [] in
+          st := s';
+          List.iter (function
+              | BOKeep -> out := (j, "K") :: !out
+              | BOChunk (true, n) -> out := (j, "W" ^ string_of_int (int_of_n n)) :: !out; written := int_of_n n :: !written
+              | BOChunk (false, n) -> out := (j, "S" ^ string_of_int (int_of_n n)) :: !out; written := int_of_n n :: !written
+              | BOStopErr -> ()) os;
+          changed in
+        let rec settle j = if step j BNext || step j BCall || step j BWrite || step j BPush then settle j in
+        for j = 0 to hticks do
+          if j > 0 then ignore (step j BTick);
+          settle j;
+          if j mod u = 0 then
+            List.iter (fun (_, k, arg) ->
+                (match k with
+                 | 'B' -> ignore (step j (BSetBuf (n_of_int (int_of_string arg))))
+                 | 'P' -> ignore (step j BPauseEv)
+                 | 'R' -> ignore (step j BResumeEv)
+                 | 'S' -> ignore (step j BStopEv)
+                 | 'T' ->
+                   if int_of_nat !st.bd_cnt > 0 then begin
+                     ignore (step j BAckTake);
+                     acks := List.nth (List.rev !written) !taken :: !acks; incr taken
+                   end else if !st.bd_ph = BSDone then acks := (-2) :: !acks
+                   else acks := (-1) :: !acks
+                 | _ -> failwith "kind");
+                settle j) (events_at sched (j / u))
+        done;
+        (List.rev !out, List.rev !acks) in
+      let show (pred, acks) =
+        (if pred = [] then "-" else String.concat "," (List.map (fun (j, c) -> Printf.sprintf "%d:%s" j c) pred))
+        ^ ";" ^ (if acks = [] then "-" else String.concat "," (List.map string_of_int acks)) in
+      let tol = int_of_string tol in
+      let rec cmp meas pred = match meas, pred with
+        | [], [] -> true
+        | (ms, c) :: m', (j, c') :: p' -> c = c' && abs (ms - j) <= tol && cmp m' p'
+        | [], rest -> List.for_all (fun (j, _) -> j + tol >= hticks) rest
+        | rest, [] -> List.for_all (fun (ms, _) -> ms + tol >= hticks) rest in
+      let ok_attempt (pred, packs) m a =
+        let meas = List.map (fun it -> match String.split_on_char ':' it with
+            | [ms; c] -> (int_of_string ms, c) | _ -> failwith "measured") (split_on ',' m) in
+        let macks = List.map int_of_string (split_on ',' a) in
+        macks = packs && cmp meas pred in
+      let ms_l = String.split_on_char '|' measured and a_l = String.split_on_char '|' acks in
+      if List.length ms_l = List.length a_l
+         && List.exists (fun sl -> let p = sim sl in List.exists2 (ok_attempt p) ms_l a_l) pause_stretches
+      then "match" else "pred=" ^ show (sim 0)
+    | _ -> "?args")
